@@ -91,6 +91,8 @@ prop("C01", NEC + "Clauses: positions handed to TokenChange queries are absolute
       {"rule": "TOKEN-ERRORS", "floor": 2}, {"rule": "TABLES", "filter": tag("T2"), "floor": 18},
       {"rule": "UPDATE-ORDER", "floor": 3}, {"rule": "RELEX-WINDOW", "floor": 8}, {"rule": "STRIP-REBUILD", "floor": 2},
       {"rule": "COMMENT-LEX", "floor": 5}, {"rule": "TEXT-SYNC", "filter": tag("batch"), "floor": 4}, {"rule": "REUSE", "floor": 18},
+      # "every published diagnostic": each change of a supporting client's document is followed by its diagnostics
+      {"rule": "BROKER", "filter": tag("diag"), "floor": 8},
       {"rule": "ERROR-OWNER", "floor": 20}])
 
 prop("C02", NEC + "Clauses: token-range to text-range conversions unwrap first()/last() only in the arm complementary "
@@ -104,7 +106,7 @@ prop("C02", NEC + "Clauses: token-range to text-range conversions unwrap first()
      "the frame decoder slices the body only behind the guard on the very bound it slices with and takes no unguarded unsigned difference (CODEC: "
      "a panic in the reader task ends the process).",
      [{"rule": "EMPTY-RANGE-GUARD", "filter": nottag("diagstart", "diagtokens"), "floor": 2}, {"rule": "LOOKUP-NOPANIC", "floor": 14},
-      {"rule": "ENTRY-GUARD", "floor": 6}, {"rule": "WHO-MAY", "filter": tag("exit"), "floor": 1},
+      {"rule": "ENTRY-GUARD", "filter": nottag("typeentry"), "floor": 6}, {"rule": "WHO-MAY", "filter": tag("exit"), "floor": 1},
       {"rule": "TOKEN-RANGE-SOURCE", "floor": 11}, {"rule": "INDEX-ELEM", "floor": 30},
       {"rule": "BUILTIN-SET", "floor": 3}, {"rule": "TEXT-SYNC", "filter": tag("batch", "clamp"), "floor": 6},
       {"rule": "RECURSION-BOUND", "floor": 4}, {"rule": "CODEC", "floor": 8}, {"rule": "BROKER", "filter": tag("answer"), "floor": 1},
@@ -112,7 +114,9 @@ prop("C02", NEC + "Clauses: token-range to text-range conversions unwrap first()
       # a handler that takes the first token of a node's slice for the node's own token *and* panics on another kind of token
       {"rule": "SLICE-FIRST", "filter": tag("panics"), "floor": 0},
       # "for every edit history the server process stays alive": a change that is not accepted at once is waited for, not turned into an error
-      {"rule": "SEND-AWAIT", "filter": nottag("order"), "floor": 8}])
+      {"rule": "SEND-AWAIT", "filter": nottag("order"), "floor": 8},
+      # diagnostics are computed for every document state: their ranges index the token vector
+      {"rule": "ERR-FRAME", "filter": tag("foreign"), "floor": 1}])
 
 prop("C03", NEC + "Clauses: each of the 27 build/semantic message kinds has an emitting site under table::* and its own "
      "text (VARIANTS); every error is attached in the reference frame of the node that owns it and is shifted exactly "
@@ -137,7 +141,9 @@ prop("C03", NEC + "Clauses: each of the 27 build/semantic message kinds has an e
       # "a valid program gets no diagnostics at all": the parser accepts the whole grammar
       {"rule": "PARSE-SHAPE", "floor": 18},
       # missing-token faults: the diagnostic "lies on the offending construct" only if its position is read in the frame it was counted in
-      {"rule": "ERR-FRAME", "filter": tag("escape"), "floor": 1}])
+      {"rule": "ERR-FRAME", "filter": tag("escape"), "floor": 1},
+      # "every range ever published lies inside the document": the positions of a diagnostic come from as_position alone
+      {"rule": "POS-CONV", "filter": lambda i: "document::" in i.key, "floor": 2}])
 
 prop("C04", NEC + "Clauses: shape of the precedence-climbing parser (levels, loops, operand parsers, else binding) "
      "and agreement of parser levels with the operator classification used by the type checker (T5); raw token "
@@ -167,7 +173,9 @@ prop("C05", NEC + "Clauses: the five synchronisation sets are nested and all con
       # "every syntax diagnostic lies within the damaged declaration": the published text range comes from the tokens the error names
       {"rule": "EMPTY-RANGE-GUARD", "filter": tag("diagtokens"), "floor": 1},
       # "remains navigable": the search for the declaration around the cursor does not end at a damaged declaration
-      {"rule": "DECL-SEARCH", "floor": 1}])
+      {"rule": "DECL-SEARCH", "floor": 1},
+      # "keeps its symbol-table entry": the entry of a declaration behind the damage still covers that declaration
+      {"rule": "ERR-FRAME", "filter": tag("entry"), "floor": 3}])
 
 prop("C06", NEC + "Clauses: alt(..) order vs. prefix relation of static lexemes (longest match), every static token "
      "lexed exactly once through the macro of its class, class order, exactly one Eof; token ranges are the ranges of the "
@@ -178,7 +186,7 @@ prop("C06", NEC + "Clauses: alt(..) order vs. prefix relation of static lexemes 
      "token payloads are input text, not assembled strings (LEX-MUNCH).",
      [{"rule": "TABLES", "filter": tag("T1", "T3"), "floor": 37}, {"rule": "EOF-ONCE", "floor": 3},
       {"rule": "TOKEN-RANGE-SOURCE", "floor": 11}, {"rule": "KEYWORD-BOUNDARY", "floor": 4}, {"rule": "COMMENT-LEX", "floor": 5},
-      {"rule": "RELEX-WINDOW", "filter": tag("lexinput"), "floor": 2}, {"rule": "LEX-MUNCH", "floor": 15}])
+      {"rule": "RELEX-WINDOW", "filter": tag("lexinput", "overlap"), "floor": 3}, {"rule": "LEX-MUNCH", "floor": 15}])
 
 prop("C07", NEC + "Clauses: a token relocated to a new range relocates its lexical errors too (TOKEN-ERRORS); the "
      "look-ahead table covers every lexeme that a following character can extend (T2); byte, char and UTF-16 lengths "
@@ -200,12 +208,14 @@ prop("C08", NEC + "Clauses: no content change is discarded, batched changes are 
      [{"rule": "TEXT-SYNC", "floor": 15}, {"rule": "LEN-UNITS", "floor": 3}, {"rule": "POS-CONV", "floor": 22},
       {"rule": "UPDATE-ORDER", "floor": 3},
       # "any range the server reports for a token addresses that token": semantic tokens report ranges relative to the previous token
-      {"rule": "SEMTOK-PAIRING", "floor": 9},
+      {"rule": "SEMTOK-PAIRING", "filter": nottag("declframe"), "floor": 9},
       # the server's copy starts as the text of didOpen: AnalyzedSource::new keeps the text it is handed
       {"rule": "REBUILD", "filter": tag("textid"), "floor": 1},
       # "any range the server reports for a token, sent back as a request position, addresses that same token": the shared look-up of
       # the token under the cursor treats the end of a token as exclusive
-      {"rule": "CURSOR-CMP", "filter": shared_only(), "floor": 0}])
+      {"rule": "CURSOR-CMP", "filter": shared_only(), "floor": 0},
+      # the copy of *that* document: the broker keeps one entry per URI
+      {"rule": "BROKER", "filter": tag("key"), "floor": 4}])
 
 prop("C09", NEC + "Clauses: operators are re-printed as the lexeme they were lexed from (T4); every Format impl prints "
      "every child that holds an identifier, literal or operator and every Error variant (TRAVERSE); every token slice "
@@ -311,7 +321,9 @@ prop("C17", NEC + "Clause: the procedure's token range is made absolute with the
       {"rule": "RELEX-WINDOW", "floor": 8},
       # ... and the tree the procedure extents are read from is the incrementally maintained one: an old node is reused only where it is
       # aligned, untouched and free of syntax errors
-      {"rule": "REUSE", "floor": 18}])
+      {"rule": "REUSE", "floor": 18},
+      # the ranges of *that* document: the broker keeps one entry per URI
+      {"rule": "BROKER", "filter": tag("key"), "floor": 4}])
 
 prop("C18", NEC + "Clauses: every path through every Request arm of the three phase loops splits the request, "
      "turns the PreparedResponse into exactly one Response and sends it; phase x situation -> error code table; "
@@ -332,7 +344,9 @@ prop("C19", NEC + "Clauses: decode consumes nothing before its last `Ok(None)`, 
       {"rule": "BROKER", "filter": tag("diag"), "floor": 8}, {"rule": "WHO-MAY", "filter": tag("exit"), "floor": 1},
       # "the same responses however the bytes are split": requests are handled inline by the reader - a handler in a task of its own
       # races with the messages buffered behind its request
-      {"rule": "WHO-MAY", "filter": tag("spawn"), "floor": 1}])
+      {"rule": "WHO-MAY", "filter": tag("spawn"), "floor": 1},
+      # ... and with arbitrary delays between them: no answer depends on how long the other task takes
+      {"rule": "SEND-AWAIT", "filter": tag("wait"), "floor": 1}])
 
 prop("C20", NEC + "Clauses: diagnostics only under `if send_diagnostics`, once per Open/Change; Close removes; "
      "document map keyed by an injective function of the URI; no task spawned per request; every channel send is "
